@@ -5,6 +5,7 @@
 #include "gates.hpp"
 #include "iokinds.hpp"
 #include <thread>
+#include <random>
 #include <mutex>
 #include <condition_variable>
 #include <functional>
@@ -269,6 +270,30 @@ static void seeding() {
       e1 = gen(w1, 3); e2 = gen(w1, 3); e3 = gen(w2, 3); out.evaluations += 2;
       if (e1 != e2) out.viol("seeding:same-seed-not-reproducible", J().s("seed", "{1,2,3}"));
       if (e1 == e3) out.viol("seeding:different-seeds-same-output", J().s("seed", "{1,2,3} vs {1,2,4}")); }
+    // generator accounting: what an encryption emits must be paid for in generator steps. The engine yields less than 31 bits per
+    // step, so a mask of W uniform 32-bit words costs at least 32 W / 31 steps: the number of steps consumed by an encryption must
+    // grow by at least that much when the mask grows by W words (k -> k+1 polynomials, n -> n' coefficients), whatever the order or
+    // method of drawing. (A helper that draws the mask from a copy of the generator leaves the steps unpaid and the same engine
+    // words are used again for the noise.)
+    { auto steps = [&](const std::function<void()> &f) -> long { std::default_random_engine pre = generator; f(); std::default_random_engine probe = pre; for (long i = 0; i <= 400000; i++) { if (probe == generator) return i; probe(); } return -1; };
+      long At[4] = {0, 0, 0, 0};
+      for (int kk = 1; kk <= 3; kk++) { TLweParams *TP = new_TLweParams(1024, kk, ldexp(1., -25), 0.25); TLweKey *TK = new_TLweKey(TP); tLweKeyGen(TK); TLweSample *tc = new_TLweSample(TP);
+          seed_library(s1 + 50 + kk); At[kk] = steps([&] { tLweSymEncryptZero(tc, ldexp(1., -25), TK); });
+          delete_TLweSample(tc); delete_TLweKey(TK); delete_TLweParams(TP); }
+      long Al[2]; int nn[2] = {100, 600};
+      for (int q = 0; q < 2; q++) { LweParams *P = new_LweParams(nn[q], ldexp(1., -15), 0.25); LweKey *K = new_LweKey(P); lweKeyGen(K); LweSample *c = new_LweSample(P);
+          seed_library(s1 + 60 + q); Al[q] = steps([&] { lweSymEncrypt(c, 1 << 29, ldexp(1., -15), K); }); delete_LweSample(c); delete_LweKey(K); delete_LweParams(P); }
+      const double per_word = 32.0 / 31.0;
+      out.evaluations += 5;
+      out.stat(J().s("kind", "generator-accounting").i("steps_tlwe_k1", At[1]).i("steps_tlwe_k2", At[2]).i("steps_tlwe_k3", At[3]).i("steps_lwe_n100", Al[0]).i("steps_lwe_n600", Al[1]));
+      if (At[1] < 0 || At[2] < 0 || At[3] < 0 || Al[0] < 0 || Al[1] < 0) out.viol("seeding:generator-state-not-reachable-from-its-previous-state", J().i("k1", At[1]).i("k2", At[2]).i("k3", At[3]));
+      else {
+          if (At[2] - At[1] < 1024 * per_word || At[3] - At[2] < 1024 * per_word || At[1] < 1024 * per_word)
+              out.viol("seeding:mask-not-paid-for-in-generator-steps:tLweSymEncryptZero", J().i("steps_k1", At[1]).i("steps_k2", At[2]).i("steps_k3", At[3]).d("minimum_per_extra_mask_polynomial", 1024 * per_word));
+          if (Al[1] - Al[0] < 500 * per_word || Al[0] < 100 * per_word)
+              out.viol("seeding:mask-not-paid-for-in-generator-steps:lweSymEncrypt", J().i("steps_n100", Al[0]).i("steps_n600", Al[1]).d("minimum_for_500_extra_words", 500 * per_word));
+      }
+      out.cell("seeding:generator-accounting"); }
     // every word of a multi-word seed matters: seeds of length 1..40 that differ in exactly one word (each position in turn, lowest
     // and highest bit) give different keys and masks; seeds that differ only in length do too
     { LweParams *P = new_LweParams(64, ldexp(1., -15), 0.25); LweKey *K = new_LweKey(P); LweSample *c = new_LweSample(P);
